@@ -78,6 +78,11 @@ def configs(tier, seed):
                      d=d - 1, dd=1, menu=MENU, max_steps=2000))
     cfgs.append(dict(backend='dict', backoff='r0x2', n=1, messages=0, prestored=3, prestored_due=5.0, store_pool=1, relay_pool=1, slow_ops=['get'],
                      script=[F], d=d, dd=1, menu=MENU, max_steps=2000))
+    # orderly restart of the queue process between a transient failure and its retry: the new queue learns the retry
+    # time from storage (shelve-backed dict store, disk, redis, cloud)
+    for b in ('shelf', 'disk', 'redis', 'cloud', 'dict'):
+        cfgs.append(dict(backend=b, backoff='r10', n=1, script=[E0, ['restart']], d=d, dd=2, menu=MENU))
+        cfgs.append(dict(backend=b, backoff='r10-20', n=1, script=[E0, ['restart'], ['restart']], d=d - 1, dd=2, menu=MENU))
     # enqueue() blocked on a saturated relay pool while the storage announces the new message
     cfgs.append(dict(backend='dict', backoff='r10', n=1, harness_wait=True, relay_pool=1, script=[E0, E1, ['announce', 1], ['announce', 0]], d=d, dd=2, menu=MENU))
     cfgs.append(dict(backend='redis', backoff='r10', n=1, relay_pool=1, script=[E0, E1], d=d, dd=2, menu=MENU))
